@@ -106,7 +106,7 @@ def sysSymlink (fs : Fs) (target path : Bytes) : Fs × Except Errno Unit :=
 def sysRmdir (fs : Fs) (path : Bytes) : Fs × Except Errno Unit :=
   match resolve fs path false with
   | .found p .dir =>
-    if p = [] then (fs, .error .einval)
+    if p.isPrefixOf cwd then (fs, .error .einval)      -- the root, the working directory and its ancestors stay (assumption)
     else if fs.children p ≠ [] then (fs, .error .enotempty)
     else (fs.del p, .ok ())
   | .found _ _ => (fs, .error .enotdir)
@@ -209,7 +209,7 @@ def sysRename (fs : Fs) (frm to : Bytes) : Fs × Except Errno Unit :=
   | .err e => (fs, .error e)
   | .missing _ _ => (fs, .error .enoent)
   | .found pf ef =>
-    if pf = [] then (fs, .error .einval) else
+    if pf.isPrefixOf cwd then (fs, .error .einval) else      -- the working directory and its ancestors are not moved (assumption)
     match resolve fs to false with
     | .err e => (fs, .error e)
     | .missing parent name =>
